@@ -45,9 +45,22 @@ def record_detrend(spec):
     def run(data, p):
         with np.errstate(all="ignore"):
             return speckit.compute_spectrum(data, 1.0, order=p, **kw)
+    def run_after_short_bin(data, p):
+        # the same analysis on an analyzer that first served a single-bin request with a segment no longer than the order
+        with np.errstate(all="ignore"):
+            a = speckit.SpectrumAnalyzer(data, 1.0, order=p, **kw)
+            a.compute_single_bin(0.1, L=max(1, p))
+            return a.compute()
     for p in spec["orders"]:
         for mode in spec["modes"]:
             base = run(x if mode == "auto" else np.vstack([x, y]), p)
+            if p >= 1:
+                tr = amp * t ** p
+                r = run_after_short_bin((x + tr) if mode == "auto" else np.vstack([x + tr, y - 0.5 * tr]), p)
+                a2 = amp * amp * np.asarray(base.S12)
+                allc = np.maximum.reduce([np.abs(r.XX - base.XX) / a2, np.abs(r.YY - base.YY) / a2, np.abs(r.XY - base.XY) / a2])
+                ev.append({"p": int(p), "d": int(p), "ch": "both_after_short_single_bin", "mode": mode, "all": traces.q(float(allc.max()), 2 ** 30),
+                           "low": traces.q(float(allc[:3].max()), 2 ** 30), "nf": int(r.nf), "minL": -1})
             s12 = np.asarray(base.S12)
             for d in range(0, min(p + 1, 3) + 1):
                 tr = amp * t ** d
